@@ -10,15 +10,16 @@ let rec split_on sep = function
   | x :: r when x = sep -> [] :: split_on sep r
   | x :: r -> (match split_on sep r with h :: t -> (x :: h) :: t | [] -> [[x]])
 
-type opline = { op : string list; res : string list option; pan : string option; clean : bool }
+type opline = { op : string list; res : string list option; pan : string option; clean : bool; fresh : string list option }
 
 let collect_ops (b : block) : opline list =
   let rec go acc cur = function
     | [] -> List.rev (match cur with Some c -> c :: acc | None -> acc)
     | ("op", t) :: r ->
       let acc = match cur with Some c -> c :: acc | None -> acc in
-      go acc (Some { op = t; res = None; pan = None; clean = true }) r
+      go acc (Some { op = t; res = None; pan = None; clean = true; fresh = None }) r
     | ("r", t) :: r -> go acc (Option.map (fun c -> { c with res = Some t }) cur) r
+    | ("fresh", t) :: r -> go acc (Option.map (fun c -> { c with fresh = Some t }) cur) r
     | ("panic", t) :: r -> go acc (Option.map (fun c -> { c with pan = Some (String.concat " " t) }) cur) r
     | ("clean", [f]) :: r -> go acc (Option.map (fun c -> { c with clean = (f = "1") }) cur) r
     | _ :: r -> go acc cur r
@@ -198,6 +199,61 @@ let check_kind (prop : string) (b : block) : verdict list =
                     end) irows
               | None -> ())
            end
+         | "tablex" ->
+           (* expected table supplied as a closed form by the harness (exact integers) *)
+           (match o.fresh with
+            | Some exp when o.pan = None ->
+              bump "closed_form_tables";
+              if List.length exp <> List.length res then
+                add (Viol (sig_of "table" "rows", Printf.sprintf "%d rows, expected %d" (List.length res) (List.length exp)))
+              else
+                List.iteri (fun i (e, r) ->
+                    match String.split_on_char ':' e, String.split_on_char ':' r with
+                    | [ev; ec; er], [rv; rc; rr] ->
+                      if ev <> rv || ec <> rc then
+                        add (Viol (sig_of "table" "cardinality", Printf.sprintf "row %d: %s:%s expected %s:%s" (i + 1) rv rc ev ec))
+                      else begin
+                        let x = try float_of_string rr with _ -> nan and y = float_of_string er in
+                        if not (Float.abs (x -. y) <= 1e-9 *. Float.max 1.0 (Float.abs y)) then
+                          add (Viol (sig_of "table" "ratio", Printf.sprintf "row %d: ratio %s, expected %s" (i + 1) rr er))
+                      end
+                    | _ -> add (Diff ("tablex", "bad row"))) (List.combine exp res)
+            | _ -> ())
+         | "satsub" ->
+           let steps = List.map (fun toks ->
+               match split_on "@" toks with
+               | [a; [r]] -> (ints a, (if r = "root" then None else Some (Conv.nat_of_int (int_of_string r))))
+               | _ -> ([], None)) (split_on ";" args) in
+           let mark = ref (List.map (fun _ -> false) c) in
+           let mres = List.map (fun (a, r) ->
+               let (m', ans) = Model.sat_propagate d (z a) !mark r in
+               mark := m'; if ans then "1" else "0") steps in
+           if o.pan = None && mres <> res then
+             add (Diff ("satsub", Printf.sprintf "[%s] model %s impl %s" opdesc (String.concat " " mres) (String.concat " " res)));
+           (* model-free oracle: while every earlier answer was 'satisfiable', the answer equals the
+              one of a fresh propagation of all literals added so far at the same (sub-)root;
+              root answers are also judged by the truth table *)
+           (match o.fresh with
+            | Some fr when o.pan = None && List.length fr = List.length res ->
+              let rec go ok acc steps rs fs =
+                match steps, rs, fs with
+                | (a, root) :: st', r :: rs', f :: fs' ->
+                  let acc = acc @ a in
+                  if ok && r <> f then
+                    add (Viol (sig_of "sat" "incremental-subroot",
+                               Printf.sprintf "[%s] kept mark vector answers %s after adding [%s], a fresh propagation of all literals so far answers %s"
+                                 opdesc r (String.concat " " (List.map string_of_int a)) f));
+                  (match tbl, root with
+                   | Some t, None when ok ->
+                     let exp = if mca t acc > 0 then "1" else "0" in
+                     if r <> exp then
+                       add (Viol (sig_of "sat" "incremental", Printf.sprintf "[%s] root answer %s, %d models contain all literals added so far" opdesc r (mca t acc)))
+                   | _ -> ());
+                  go (ok && r = "1") acc st' rs' fs'
+                | _ -> ()
+              in
+              go true [] steps res fr
+            | _ -> ())
          | "law" ->
            (match split_on "|" args with
             | [a; [x]] ->
